@@ -8,7 +8,7 @@ Driver streams `C12.lcs` (`slice.LCS`, `slice.LCSFunc` with equality modulo `k`)
 (`slice.LIS/LISFunc/LNDS/LNDSFunc` with natural, reversed and coarse comparisons).
 
 Op lines: `reset [L R]`, `l v…`, `r v…`, `lcs`, `lcsf k` — and for `C12.lis`: `reset [V]`, `v x…`,
-`lis mode`, `lnds mode` with `mode ∈ nat, rev, half, revhalf` (`half` compares `x/2`: a total
+`lis mode`, `lnds mode` with `mode ∈ nat, rev, half, revhalf, diff (a-b), rdiff2 (2*(b-a))` (`half` compares `x/2`: a total
 preorder with ties between different values).
 
 Each call line runs `Model.Edit.lcsFunc?` / `Model.Lis.lisFunc` / `lndsFunc` (the functions the
@@ -56,6 +56,9 @@ def cmpOf (mode : String) : Int → Int → Int :=
   if mode == "rev" then fun a b => cmpInt b a
   else if mode == "half" then fun a b => cmpInt (a / 2) (b / 2)
   else if mode == "revhalf" then fun a b => cmpInt (b / 2) (a / 2)
+  -- comparisons whose results are not confined to {-1, 0, 1} (any sign-correct `int` is a legal `cmp`)
+  else if mode == "diff" then fun a b => a - b
+  else if mode == "rdiff2" then fun a b => 2 * (b - a)
   else cmpInt
 
 def specLis (vs : List Int) (strict : Bool) (cmp : Int → Int → Int) (impl : String) : String :=
